@@ -47,7 +47,7 @@ pub struct Outcome {
 }
 
 /// Runs one query on a fresh store; `sched` = tokens ("c" or shard number) to force, or None.
-pub fn run_query(ctl: &Arc<Ctl>, sc: &Value, ns: usize, sched: Option<&Vec<Value>>, delays: Option<(u64, u64)>, use_iter: bool) -> Outcome {
+pub fn run_query(ctl: &Arc<Ctl>, sc: &Value, ns: usize, sched: Option<&Vec<Value>>, delays: Option<(u64, u64)>, use_iter: bool, abandon: bool) -> Outcome {
     let plan = Plan::new();
     plan.metric_limit.store(jint(sc, "limit"), Ordering::SeqCst);
     let mut store: DStore = TrackStoreBuilder::new(ns)
@@ -62,7 +62,7 @@ pub fn run_query(ctl: &Arc<Ctl>, sc: &Value, ns: usize, sched: Option<&Vec<Value
     let cls = jint(sc, "cls") as u64;
     let baked = jbool(sc, "baked");
     let cand_ids: Vec<u64> = jarr(sc, "cands").iter().map(|c| jint(c, "id") as u64).collect();
-    let ext: Vec<DTrack> = if owned { vec![] } else { jarr(sc, "cands").iter().map(|c| build(&plan, c)).collect() };
+    let ext: Vec<DTrack> = if owned && !abandon { vec![] } else { jarr(sc, "cands").iter().map(|c| build(&plan, c)).collect() };
     ctl.reset();
     if let Some((seed, us)) = delays {
         ctl.set_delays(seed, us);
@@ -73,6 +73,12 @@ pub fn run_query(ctl: &Arc<Ctl>, sc: &Value, ns: usize, sched: Option<&Vec<Value
     }
     let (tx, rx) = mpsc::channel();
     let h = std::thread::spawn(move || {
+        if abandon {
+            // an earlier query whose response is dropped without being read must not disturb this one
+            let (o, e) = store.foreign_track_distances(ext.clone(), cls, baked);
+            drop(o);
+            drop(e);
+        }
         let (ok, err) = if owned {
             store.owned_track_distances(&cand_ids, cls, baked)
         } else {
@@ -159,7 +165,7 @@ pub fn main(opts: &Opts) {
         rep.sample(&c);
         let sc = jget(&c, "sc");
         let ns = jint(&c, "ns") as usize;
-        let o = run_query(&ctl, sc, ns, Some(jarr(&c, "sched")), None, idx % 2 == 1);
+        let o = run_query(&ctl, sc, ns, Some(jarr(&c, "sched")), None, idx % 2 == 1, false);
         rep.count(if idx % 2 == 1 { "consumed_by_iterator" } else { "consumed_by_all" }, 1);
         let sched = jarr(&c, "sched");
         // non-trivial: >= 2 candidates and an arrival order different from shard order, or a caller step between worker steps
@@ -235,7 +241,7 @@ pub fn record(opts: &Opts) {
         let limit = [1, 3, 10][rng.gen_range(0..3)];
         let sc = json!({"tracks": tracks, "cands": cands, "owned": owned, "cls": rng.gen_range(0..2),
                         "baked": rng.gen_bool(0.4), "limit": limit});
-        let o = run_query(&ctl, &sc, ns, None, Some((seed * 1000 + k as u64, max_us)), k % 2 == 1);
+        let o = run_query(&ctl, &sc, ns, None, Some((seed * 1000 + k as u64, max_us)), k % 2 == 1, k % 5 == 4);
         if o.hang {
             hangs += 1;
         }
